@@ -41,9 +41,13 @@ func encode(c *fw.Case, p sms.PDU) (b []byte, err error, psig, pdetail string) {
 
 // decode calls p.IDecode under panic capture.
 func decode(c *fw.Case, p sms.PDU, b []byte) (err error, psig, pdetail string) {
+	// the image is handed over the way a receive loop does it: a window of a larger buffer whose octets behind the
+	// window belong to the next frame. A decoder that looks beyond len(b) reads them (slicing is bounded by cap).
+	view := spareView(b)
 	arm(c, len(b))
-	panicked, val, stack := fw.Try(func() { err = p.IDecode(b) })
+	panicked, val, stack := fw.Try(func() { err = p.IDecode(view) })
 	disarm(c)
+	copy(b, view) // what the decoder did to its input stays visible to the caller's own checks
 	if panicked {
 		return nil, fw.PanicSig(val, stack), fmt.Sprintf("panic: %v\n%s", val, stack)
 	}
@@ -132,6 +136,37 @@ func echoCodec(c *fw.Case, t *pdus.Type, v *pdus.Values, img []byte) {
 		}
 		return canonImage(t, b, err) + " / " + d
 	})
+}
+
+// refusedEncodeFirst makes the library go through an encoder's error path (a value one octet too long for its
+// fixed-width slot, in a random PDU type) before the call that is being judged: whatever an error path leaves behind —
+// a pooled writer that keeps its error, a buffer not given back — must not reach the next, unrelated call.
+func refusedEncodeFirst(c *fw.Case) {
+	ts := pdus.Load()
+	cands := oversizeCandidates(ts)
+	oc := cands[c.R.Intn(len(cands))]
+	v, _ := pdus.Gen(oc.t, c.R, -1, 0)
+	f := oc.t.Fields[oc.field]
+	big := nonNul(c.R, f.W+1+c.R.Intn(8))
+	if oc.elem {
+		v.F[f.Spec] = [][]byte{big}
+		v.F[f.Count] = uint64(1)
+	} else {
+		v.F[f.Spec] = big
+	}
+	arm(c, 1<<16)
+	fw.Try(func() { _, _ = pdus.Build(oc.t, v).IEncode() })
+	disarm(c)
+	c.Count("refused_encodes_first", 1)
+}
+
+// spareView returns a copy of b that is a window of a larger buffer: 24 octets of a plausible next frame follow it.
+func spareView(b []byte) []byte {
+	big := make([]byte, len(b), len(b)+24)
+	copy(big, b)
+	tail := big[len(b):cap(big)]
+	copy(tail, "\x00\x00\x00\x18\x00\x00\x00\x04NEXTFRAME\x00\x01\x00\x02ab\x00")
+	return big
 }
 
 func min(a, b int) int {
